@@ -6,12 +6,12 @@ CONSTANTS
   Foreigns = TRUE
   Wraps = FALSE
   WrapMax = 0
+  ForeignVals <- ForeignValsQuick
+  ForeignBase <- ForeignBaseQuick
   WithAcc = FALSE
   ExportMode = "errors"
-INVARIANT C05Static
 INVARIANT EmptyAccepts
 INVARIANT NoSurprises
 INVARIANT ExportInv
-PROPERTY C05Step
 PROPERTY C10Step
 CHECK_DEADLOCK FALSE
